@@ -474,8 +474,13 @@ def _propositional(ctx, f: FunctionInfo, raise_stmt) -> Tuple[bool, str]:
     """truth-table over repeated pure atoms (`x in y`, `x == y`): is the raise reachable?"""
     g = ctx.cfg(f)
     atoms: Dict[str, List[int]] = {}
+    from ..astutil import expand_locals, single_defs
+    sdefs = single_defs(f.node, f.params)
+    flipped = set()
     for n in g.conds():
         e = n.ast
+        if isinstance(e, ast.Name) and e.id in sdefs:
+            e = expand_locals(f.node, e, f.params, defs=sdefs)  # a local flag holding a pure membership / equality atom
         if isinstance(e, ast.Compare) and len(e.ops) == 1 and isinstance(e.ops[0], (ast.In, ast.NotIn, ast.Eq, ast.NotEq)):
             if any(isinstance(x, ast.Call) for x in ast.walk(e)):
                 continue
@@ -725,108 +730,67 @@ def r48(ctx, res):
                               "membership test `%s` with operand types (%s in %s) resolves to a fallback branch: %s"
                               % (txt(cmp_), el, cont, "; ".join("%s line %d `%s` [%s]" % t for t in terms)),
                               construct="%s: %s in %s" % (txt(cmp_), el, cont))
-    ctx.require(res, "R4.8", n, 40, "membership tests in the intersection code")
+    ctx.require(res, "R4.8", n, 25, "membership tests in the intersection code")
 
 
 # ---------------------------------------------------------------- R4.9
 def r49_same_type_swap_closure(ctx, res):
     """For the same-type pairs intersection(a, b) and intersection(b, a) run ONE handler with the operands
     exchanged.  A structural necessary condition for the two runs to denote the same set: at every result
-    return, the set of candidate families that have certainly been consulted is closed under exchanging the
-    two operands (what was collected from a against b must also have been collected from b against a)."""
-    import copy as _copy
+    return of the candidate region, the set of candidate families (origin analysis: which parts of which operand
+    are offered) that have certainly been consulted is closed under exchanging the two operands."""
+    import re
 
-    from ..confinement import family_bypass
-    from .c01 import collinear_branch
+    from ..origins import bypassing_returns, family_nodes, get_origins
 
     repo = ctx.repo
-
-    def swap_txt(node, a, b):
-        class R(ast.NodeTransformer):
-            def visit_Name(self, n):
-                if n.id == a:
-                    return ast.copy_location(ast.Name(id=b, ctx=n.ctx), n)
-                if n.id == b:
-                    return ast.copy_location(ast.Name(id=a, ctx=n.ctx), n)
-                return n
-        return txt(R().visit(_copy.deepcopy(node)))
-
-    def fam_key(F):
-        """canonical description of a family, loop variables and locals normalised away"""
-        if isinstance(F, ast.If):
-            return "if " + txt(F.test)
-        if isinstance(F, ast.For):
-            calls = sorted(txt(c)[:80] for c in ast.walk(F) if isinstance(c, ast.Call) and isinstance(c.func, ast.Name)
-                           and (c.func.id.startswith("inter") or c.func.id.endswith("_point_set")))
-            tests = sorted(txt(c) for st in F.body if isinstance(st, ast.If) for c in [st.test])
-            v = F.target.id if isinstance(F.target, ast.Name) else "_"
-            return ("for _ in %s: %s %s" % (txt(F.iter), calls, tests)).replace(v, "_v")
-        return txt(F)
-
-    def fam_mirror(F, a, b):
-        class R(ast.NodeTransformer):
-            def visit_Name(self, n):
-                if n.id == a:
-                    return ast.copy_location(ast.Name(id=b, ctx=n.ctx), n)
-                if n.id == b:
-                    return ast.copy_location(ast.Name(id=a, ctx=n.ctx), n)
-                return n
-        return fam_key(R().visit(_copy.deepcopy(F)))
-
+    o = get_origins(ctx)
     n = 0
     for name in ("inter_segment_segment", "inter_halfline_halfline", "inter_convexpolygon_convexpolygon",
                  "inter_convexpolyhedron_convexpolyhedron"):
         fi = repo.fn(name, "calc.intersection")
         a, b = fi.params[:2]
-        fams: List[ast.stmt] = []
-        scope: List[ast.stmt] = list(fi.node.body)
-        br = collinear_branch(fi)
-        if br is not None:
-            scope = br.body
-            fams = [st for st in br.body if isinstance(st, ast.If) and isinstance(st.test, ast.Compare)
-                    and isinstance(st.test.ops[0], ast.In)]
-        else:
-            for st in walk_local(fi.node):
-                if isinstance(st, ast.For) and any(x in txt(st.iter) for x in (a + ".", b + ".")):
-                    fams.append(st)
-            if fams:
-                for st in walk_local(fi.node):
-                    if isinstance(st, ast.If):
-                        for body in (st.body, st.orelse):
-                            if all(any(f_ is x for x in body) for f_ in fams):
-                                scope = body
-        if not fams:
-            raise AnalysisError("%s: no candidate families found" % fi.where())
-        keys = {id(F): fam_key(F) for F in fams}
-        mirrors = {id(F): fam_mirror(F, a, b) for F in fams}
-        allkeys = set(keys.values())
-        # self-mirrored families (symmetric through a helper that iterates the other operand's edges)
+        fams = o.families(name)
+
+        def mirror(f):
+            m = re.sub(r"\b(%s|%s)\b" % (re.escape(a), re.escape(b)), lambda mm: b if mm.group(1) == a else a, f)
+            mm = re.match(r"^hit\((.*)\)$", m)
+            if mm and "hit(" not in mm.group(1):
+                m = "hit(%s)" % " | ".join(sorted(mm.group(1).split(" | ")))
+            return m
+
+        # asymmetric families whose mirror image is a family of the handler too (self-mirrored ones need no partner)
+        pairs = sorted(f for f in fams if f not in (a, b) and mirror(f) != f and mirror(f) in fams and "hit(hit" not in f
+                       and not f.startswith("hit(%s | hit" % a) and not f.startswith("hit(%s | hit" % b))
+        if not pairs:
+            raise AnalysisError("%s: no mirrored candidate families found" % fi.where())
         g = ctx.cfg(fi)
-        bypassed = family_bypass(ctx, fi, fams, scope)
-        by_ret: Dict[int, Set[int]] = {}
+        ids = set()
+        for f in pairs:
+            ids |= family_nodes(ctx, fi, fams[f])
+        region = g.reach(list(ids))
+        skipped: Dict[int, Set[str]] = {}
         rets = {}
-        for r, F in bypassed:
-            by_ret.setdefault(id(r), set()).add(id(F))
-            rets[id(r)] = r
+        for r, f in bypassing_returns(ctx, fi, fams, pairs):
+            rn = g.nodes_of(r)
+            if rn and rn[0] in region:
+                skipped.setdefault(id(r), set()).add(f)
+                rets[id(r)] = r
         n += 1
         bad = []
-        for rid, skipped in by_ret.items():
-            consulted = [F for F in fams if id(F) not in skipped]
-            ck = {keys[id(F)] for F in consulted}
-            for F in consulted:
-                mk = mirrors[id(F)]
-                if mk in allkeys and mk not in ck:
-                    bad.append((rets[rid], F, mk))
+        for rid, sk in skipped.items():
+            for f in pairs:
+                if f not in sk and mirror(f) in sk:
+                    bad.append((rets[rid], f, mirror(f)))
         ok = not bad
         res.ob("R4.9", fi.where(), "%s: consulted candidate families are closed under exchanging the operands at every result return" % fi.short,
-               ok, "%d families, %d result returns behind all of them" % (len(fams), len(by_ret)) if ok else
-               "`%s` is reached after `%s` but possibly before its mirror image" % (txt(bad[0][0])[:40], keys[id(bad[0][1])][:60]))
-        for r, F, mk in bad[:2]:
+               ok, "mirrored families %s" % pairs if ok else
+               "`%s` is reached after `%s` but possibly before its mirror image" % (txt(bad[0][0])[:40], bad[0][1]))
+        for r, f, mk in bad[:2]:
             res.violation("R4.9", fi, r,
                           "%s can `%s` after consulting `%s` but without its mirror image `%s`: intersection(a, b) and intersection(b, a) "
-                          "run this handler with the operands exchanged and would then disagree" % (
-                              fi.short, txt(r)[:40], keys[id(F)][:70], mk[:70]),
-                          construct="%s: `%s` after %s without its mirror" % (fi.short, txt(r)[:40], keys[id(F)][:50]))
+                          "run this handler with the operands exchanged and would then disagree" % (fi.short, txt(r)[:40], f, mk),
+                          construct="%s: `%s` after %s without its mirror" % (fi.short, txt(r)[:40], f))
     ctx.require(res, "R4.9", n, 4, "same-type handlers with candidate families")
 
 
